@@ -36,6 +36,7 @@ func main() {
 	mode := flag.String("mode", "controlled", "controlled|free")
 	rewrite := flag.String("rewrite", "", "comma separated repo-relative files to rewrite (controlled mode only)")
 	add := flag.String("add", "", "comma separated dst=src pairs (dst repo-relative)")
+	rewriteDirs := flag.String("rewrite-dirs", "", "comma separated repo-relative package dirs: every non-test .go file in them that imports sync or has a go statement is rewritten (controlled mode only)")
 	flag.Parse()
 	if r := os.Getenv("VERIF_REPO"); r != "" {
 		repo = r
@@ -92,6 +93,33 @@ func main() {
 			ov[src] = out
 		}
 	}
+	if *rewriteDirs != "" && *mode == "controlled" {
+		for _, dir := range strings.Split(*rewriteDirs, ",") {
+			ents, err := os.ReadDir(filepath.Join(repo, dir))
+			if err != nil {
+				die("%v", err)
+			}
+			for _, e := range ents {
+				name := e.Name()
+				if e.IsDir() || !strings.HasSuffix(name, ".go") || strings.HasSuffix(name, "_test.go") {
+					continue
+				}
+				src := filepath.Join(repo, dir, name)
+				if _, done := ov[src]; done {
+					continue
+				}
+				out := filepath.Join(*work, "rw_"+strings.ReplaceAll(filepath.Join(dir, name), "/", "_"))
+				err := rewriteFile(src, out)
+				if err == errNothing {
+					continue
+				}
+				if err != nil {
+					die("%s: %v", filepath.Join(dir, name), err)
+				}
+				ov[src] = out
+			}
+		}
+	}
 	if *add != "" {
 		for _, p := range strings.Split(*add, ",") {
 			dst, src, ok := strings.Cut(p, "=")
@@ -109,6 +137,8 @@ func main() {
 		die("%v", err)
 	}
 }
+
+var errNothing = fmt.Errorf("file has neither a sync import nor a go statement: nothing to rewrite (stale rewrite list?)")
 
 func rewriteFile(src, out string) error {
 	fset := token.NewFileSet()
@@ -177,7 +207,7 @@ func rewriteFile(src, out string) error {
 		}
 	}
 	if !syncSeen && !goSeen {
-		return fmt.Errorf("file has neither a sync import nor a go statement: nothing to rewrite (stale rewrite list?)")
+		return errNothing
 	}
 	var buf bytes.Buffer
 	if err := format.Node(&buf, fset, f); err != nil {
